@@ -13,7 +13,8 @@
    failed reconnects. *)
 From Coq Require Import List ZArith Bool Arith.
 From LV Require Import Channel.Model Channel.Proofs Channel.Resync Channel.Discipline
-                       Channel.Punish Channel.PunishProofs.
+                       Channel.Punish Channel.PunishProofs
+                       Channel.StateHint Channel.StateHintProofs.
 Import ListNotations.
 Local Open Scope Z_scope.
 
@@ -62,8 +63,45 @@ Theorem C04_every_revoked_state_punishable : forall c w, wreachable c w -> foral
   c_owner k = negb p /\ claimed_exactly c k p.
 Proof. exact reach_revoked_claimed. Qed.
 
+(* Layer 1, the state hint (Channel/StateHint.v: SetStateNumHint /
+   GetStateNumHint as exact uint64 / uint32 bit operations on N).  For every
+   48-bit obfuscator and every height below 2^48 the hint is accepted and
+   decodes to the height ... *)
+Theorem C04_hint_roundtrip : forall obf h, (obf < 2 ^ 48)%N -> (h < 2 ^ 48)%N ->
+  get_hint_of (set_hint h obf) obf = Some h.
+Proof. exact hint_roundtrip. Qed.
+
+(* ... the sequence field has bit 31 set (sequence lock disabled; it is
+   0x80 || 24 payload bits) and the locktime lies in [TimelockShift,
+   TimelockShift + 2^24): above 500 000 000 (a timestamp) and below 2^30 (in the
+   past), so the commitment transaction is final ... *)
+Theorem C04_hint_fields : forall obf h sq lt, (obf < 2 ^ 48)%N ->
+  set_hint h obf = Some (sq, lt) ->
+  N.testbit sq 31 = true /\ (2 ^ 31 <= sq)%N /\ (sq < 2 ^ 31 + 2 ^ 24)%N /\
+  (timelock_shift <= lt)%N /\ (lt < timelock_shift + 2 ^ 24)%N /\
+  (500000000 <= lt)%N /\ (lt < 2 ^ 30)%N.
+Proof. exact hint_fields. Qed.
+
+(* ... heights from 2^48 on are refused (with the "greater than max" error,
+   whatever the number of inputs: it is the first check), all smaller ones are
+   accepted ... *)
+Theorem C04_hint_rejects_large : forall obf h n_in, (2 ^ 48 <= h)%N ->
+  set_hint_tx n_in h obf = HintErrTooLarge /\ set_hint h obf = None.
+Proof. exact hint_rejects_large. Qed.
+
+(* ... and two different heights of one channel never carry the same
+   (sequence, locktime) pair. *)
+Theorem C04_hint_injective : forall obf h1 h2,
+  (obf < 2 ^ 48)%N -> (h1 < 2 ^ 48)%N -> (h2 < 2 ^ 48)%N ->
+  set_hint h1 obf = set_hint h2 obf -> h1 = h2.
+Proof. exact hint_injective. Qed.
+
 Print Assumptions C04_wrapper_is_conservative.
 Print Assumptions C04_wrapper_covers_every_state.
 Print Assumptions C04_log_matches_revoked_descriptor.
 Print Assumptions C04_every_output_claimed.
 Print Assumptions C04_every_revoked_state_punishable.
+Print Assumptions C04_hint_roundtrip.
+Print Assumptions C04_hint_fields.
+Print Assumptions C04_hint_rejects_large.
+Print Assumptions C04_hint_injective.
